@@ -728,13 +728,13 @@ theorem round_complete (n : Nat) (H : HashFn) (rx : Rx) (B : Bytes) (th : Hdr) (
     (hbound : th.lead + th.headerLen + C13.sumLen th.chunks < 2^64) (hBsmall : B.length < W64)
     (hB : AllPresent (envOf H rx th []) B) (hvl : valid.length = th.chunks.length)
     (hmiss : ∃ k c, th.chunks[k]? = some c ∧ valid.getD k 0 = 0 ∧ c.compLen ≠ 0)
-    (hon : ∀ items, Honest rx n B.length items) :
+    (hon : Honest rx n B.length (reqOf th limit valid).items) :
     ∃ r f v, Update.round n H rx B th limit frag none file valid = (r, some (f, v, true)) ∧
       (reqOf th limit valid).index ≠ [] ∧
       (∀ p ∈ (reqOf th limit valid).index, v.getD p.1 0 = 1) ∧
       (∀ k, (∀ p ∈ (reqOf th limit valid).index, p.1 ≠ k) → v.getD k 0 = valid.getD k 0) := by
   obtain ⟨gs, hgne, hg, hx, hitems, hindex, hnd⟩ := req_ready th limit valid hrun hbound hmiss
-  have hon' := hon (gs.map spanOf)
+  have hon' : Honest rx n B.length (gs.map spanOf) := hitems ▸ hon
   -- every extent of the request lies in the server's file
   have hin : ∀ x ∈ gs.flatten, x.start + x.len ≤ B.length := fun x hx' => (ext_in_B H rx th B valid hB x (hx x hx').2).1
   have hmemg : ∀ g ∈ gs, ∀ x ∈ g, x ∈ gs.flatten := fun g hg' x hx' => List.mem_flatten.mpr ⟨g, hg', hx'⟩
@@ -914,5 +914,270 @@ theorem round_complete (n : Nat) (H : HashFn) (rx : Rx) (B : Bytes) (th : Hdr) (
     apply hk (x.number, x.len)
     · rw [hindex]; exact List.mem_map_of_mem hx'
     · simp only; rw [hxn]; exact heq
+
+
+/-! ### the list of marks keeps its length -/
+
+theorem vlen_preserved (e : Env) (n : Nat) : Preserved e (fun st => st.valid.length = n) where
+  frame := fun _ _ h _ _ h3 _ _ _ => by rw [h3]; exact h
+  write := fun st at_ h => by
+    unfold dlWrite
+    by_cases hw : st.writeInChunk > 0
+    · simp only [hw, ↓reduceIte]
+      generalize (if st.writeInChunk < at_.length then st.writeInChunk else at_.length) = wb
+      by_cases h0 : wb = 0
+      · simp only [h0, ↓reduceIte]; exact h
+      · simp only [h0, ↓reduceIte]
+        cases st.hash <;> exact h
+    · simp only [hw, ↓reduceIte]; exact h
+  verify := fun st h hw => by
+    unfold dlVerify
+    split
+    · rename_i k _
+      unfold setChunkValid
+      cases e.hdr.chunks[k]? with
+      | none => exact ⟨h, hw⟩
+      | some tc =>
+        simp only
+        cases hh : st.hash with
+        | none => simp only [zeroChunk, List.length_set]; exact ⟨h, hw⟩
+        | some acc =>
+          simp only
+          generalize (if tc.compLen = 0 then (hsize e.hdr.chunkHashType).map zeros else e.H e.hdr.chunkHashType acc) = dg
+          by_cases hd : (dg == some tc.digest) = true
+          · simp only [hd, ↓reduceIte, List.length_set]; exact ⟨h, hw⟩
+          · simp only [hd, Bool.false_eq_true, ↓reduceIte, zeroChunk, List.length_set]; exact ⟨h, hw⟩
+    · exact ⟨h, hw⟩
+  opens := fun st h _ => by
+    unfold dlOpen
+    simp only
+    split
+    · split
+      · exact h
+      · exact h
+    · exact h
+
+theorem session_vlen (e : Env) (file : Bytes) (valid : List Int) (lines frags : List Bytes) :
+    (session e file valid lines frags).2.2.valid.length = valid.length := by
+  unfold session
+  exact pres_feed e (vlen_preserved e valid.length) true false frags _ []
+    (pres_feedHdrs e (vlen_preserved e valid.length) lines { file := file, pos := 0, valid := valid } [] rfl)
+
+theorem round_vlen (n : Nat) (H : HashFn) (rx : Rx) (B : Bytes) (th : Hdr) (limit : Int) (frag : Nat) (cut : Option Nat)
+    (file : Bytes) (valid : List Int) (r : String) (f : Bytes) (v : List Int) (ok : Bool)
+    (h : Update.round n H rx B th limit frag cut file valid = (r, some (f, v, ok))) : v.length = valid.length := by
+  obtain ⟨ridx, lines, frags, _, rfl⟩ := round_some n H rx B th limit frag cut file valid r f v ok h
+  exact session_vlen _ _ _ _ _
+
+/-! ### counting the marks that are still 0 -/
+
+theorem countEq_cons (x : Int) (l : List Int) (y : Int) : countEq (x :: l) y = (if x == y then 1 else 0) + countEq l y := by
+  unfold countEq
+  simp only [List.filter_cons]
+  split <;> simp <;> omega
+
+/-- marks change only from 0 to 1: the number of zeros does not grow, and shrinks when a mark changed -/
+theorem countEq_le : ∀ (a b : List Int), a.length = b.length →
+    (∀ k, b.getD k 0 = a.getD k 0 ∨ (a.getD k 0 = 0 ∧ b.getD k 0 = 1)) →
+    countEq b 0 ≤ countEq a 0 ∧
+    ((∃ k, k < a.length ∧ a.getD k 0 = 0 ∧ b.getD k 0 = 1) → countEq b 0 < countEq a 0)
+  | [], [], _, _ => ⟨Nat.le_refl _, fun ⟨k, hk, _⟩ => by simp at hk⟩
+  | [], _ :: _, h, _ => by simp at h
+  | _ :: _, [], h, _ => by simp at h
+  | x :: a, y :: b, hl, hk => by
+    have ih := countEq_le a b (by simpa using hl) (fun k => by have := hk (k + 1); simpa using this)
+    have h0 := hk 0
+    simp only [List.getD_cons_zero] at h0
+    rw [countEq_cons, countEq_cons]
+    refine ⟨?_, ?_⟩
+    · rcases h0 with h | ⟨h1, h2⟩
+      · rw [h]; have := ih.1; omega
+      · rw [h1, h2]; have := ih.1; simp; omega
+    · rintro ⟨k, hkl, hk1, hk2⟩
+      cases k with
+      | zero =>
+        simp only [List.getD_cons_zero] at hk1 hk2
+        rw [hk1, hk2]; have := ih.1; simp; omega
+      | succ k' =>
+        have := ih.2 ⟨k', by simpa using hkl, by simpa using hk1, by simpa using hk2⟩
+        rcases h0 with h | ⟨h1, h2⟩
+        · rw [h]; omega
+        · rw [h1, h2]; simp; omega
+
+theorem countEq_pos (v : List Int) (h : countEq v 0 ≠ 0) : ∃ k, k < v.length ∧ v.getD k 0 = 0 := by
+  induction v with
+  | nil => simp [countEq] at h
+  | cons x v ih =>
+    by_cases hx : x = 0
+    · exact ⟨0, by simp, by simp [hx]⟩
+    · rw [countEq_cons] at h
+      have : (x == (0 : Int)) = false := by simpa using hx
+      rw [this] at h
+      obtain ⟨k, hk1, hk2⟩ := ih (by simpa using h)
+      exact ⟨k + 1, by simpa using hk1, by simpa using hk2⟩
+
+theorem countEq_zero (v : List Int) (h : countEq v 0 = 0) : ∀ k, k < v.length → v.getD k 0 ≠ 0 := by
+  induction v with
+  | nil => intro k hk; simp at hk
+  | cons x v ih =>
+    rw [countEq_cons] at h
+    intro k hk
+    cases k with
+    | zero =>
+      simp only [List.getD_cons_zero]
+      intro hx
+      rw [hx] at h; simp at h
+    | succ k' =>
+      have := ih (by omega) k' (by simpa using hk)
+      simpa using this
+
+/-! ### the fetch loop with well-formed responses -/
+
+/-- the marks at the start of a round: one per chunk, each 0 (missing) or 1 (valid), chunks without stored bytes valid -/
+structure Marks (th : Hdr) (valid : List Int) : Prop where
+  len  : valid.length = th.chunks.length
+  bin  : ∀ k, valid.getD k 0 = 0 ∨ valid.getD k 0 = 1
+  zero : ∀ k c, th.chunks[k]? = some c → c.compLen = 0 → valid.getD k 0 = 1
+
+/-- **the fetch loop terminates with everything valid** when every response is well formed: by induction over the number of
+marks that are still 0, which every round reduces -/
+theorem loop_complete (H : HashFn) (rx : Rx) (B : Bytes) (th : Hdr) (limit : Int) (frag : Nat)
+    (hrun : C13.RunFrom 0 0 th.chunks) (hbound : th.lead + th.headerLen + C13.sumLen th.chunks < 2^64)
+    (hBsmall : B.length < W64) (hB : AllPresent (envOf H rx th []) B)
+    (hon : ∀ n valid', Marks th valid' → Honest rx (n + 1) B.length (reqOf th limit valid').items) :
+    ∀ (fuel : Nat) (file : Bytes) (valid : List Int) (reqs : List String) (n : Nat), Marks th valid → countEq valid 0 < fuel →
+    let out := Update.loop H rx B th limit frag none fuel file valid reqs n
+    out.2.2.2.2 = none ∧ Marks th out.2.1 ∧ countEq out.2.1 0 = 0
+  | 0, _, _, _, _, _, hf => by omega
+  | fuel + 1, file, valid, reqs, n, hm, hf => by
+    intro out
+    have hout : out = Update.loop H rx B th limit frag none (fuel + 1) file valid reqs n := rfl
+    unfold Update.loop at hout
+    by_cases h0 : countEq valid 0 = 0
+    · rw [if_pos h0] at hout
+      rw [hout]
+      exact ⟨rfl, hm, h0⟩
+    · rw [if_neg h0] at hout
+      obtain ⟨k, hk1, hk2⟩ := countEq_pos valid h0
+      have hkc : k < th.chunks.length := by rw [← hm.len]; exact hk1
+      have hmiss : ∃ k c, th.chunks[k]? = some c ∧ valid.getD k 0 = 0 ∧ c.compLen ≠ 0 := by
+        refine ⟨k, th.chunks[k], List.getElem?_eq_getElem hkc, hk2, ?_⟩
+        intro hz
+        have := hm.zero k th.chunks[k] (List.getElem?_eq_getElem hkc) hz
+        omega
+      obtain ⟨r, f, v, hr, hidx, hv1, hv2⟩ := round_complete (n + 1) H rx B th limit frag file valid hrun hbound hBsmall hB hm.len hmiss
+        (hon n valid hm)
+      have hvl := round_vlen _ H rx B th limit frag none file valid r f v true hr
+      simp only at hout
+      rw [hr] at hout
+      simp only at hout
+      -- what the request contained
+      have hreq := request_only_missing th limit valid hrun hbound
+      have hstep : ∀ j, v.getD j 0 = valid.getD j 0 ∨ (valid.getD j 0 = 0 ∧ v.getD j 0 = 1) := by
+        intro j
+        by_cases hj : ∃ p ∈ (reqOf th limit valid).index, p.1 = j
+        · obtain ⟨p, hp, rfl⟩ := hj
+          obtain ⟨c, _, hc0, _⟩ := hreq p hp
+          exact Or.inr ⟨hc0, hv1 p hp⟩
+        · exact Or.inl (hv2 j (fun p hp heq => hj ⟨p, hp, heq⟩))
+      have hlt : countEq v 0 < countEq valid 0 := by
+        apply (countEq_le valid v hvl.symm hstep).2
+        cases hix : (reqOf th limit valid).index with
+        | nil => exact absurd hix hidx
+        | cons p rest =>
+          have hp : p ∈ (reqOf th limit valid).index := by rw [hix]; exact List.mem_cons_self
+          obtain ⟨c, hc, hc0, _⟩ := hreq p hp
+          have hpl : p.1 < th.chunks.length := (List.getElem?_eq_some_iff.mp hc).1
+          exact ⟨p.1, by rw [hm.len]; exact hpl, hc0, hv1 p hp⟩
+      have hm' : Marks th v := by
+        refine ⟨by rw [hvl, hm.len], ?_, ?_⟩
+        · intro j
+          rcases hstep j with h | ⟨_, h⟩
+          · rw [h]; exact hm.bin j
+          · exact Or.inr h
+        · intro j c hc hz
+          rcases hstep j with h | ⟨_, h⟩
+          · rw [h]; exact hm.zero j c hc hz
+          · exact h
+      have ih := loop_complete H rx B th limit frag hrun hbound hBsmall hB hon fuel f v (r :: reqs) (n + 1) hm' (by omega)
+      rw [hout]
+      exact ih
+
+/-- all marks are 1 once none is 0 -/
+theorem marks_all_valid (th : Hdr) (v : List Int) (hm : Marks th v) (h0 : countEq v 0 = 0) :
+    (v.length == th.chunks.length && v.all (· == 1)) = true := by
+  simp only [Bool.and_eq_true, beq_iff_eq, List.all_eq_true]
+  refine ⟨hm.len, ?_⟩
+  intro x hx
+  obtain ⟨k, hk, rfl⟩ := List.mem_iff_getElem.mp hx
+  have h1 := countEq_zero v h0 k hk
+  have h2 := hm.bin k
+  simp only [List.getD_eq_getElem?_getD, List.getElem?_eq_getElem hk, Option.getD_some] at h1 h2
+  rcases h2 with h | h
+  · exact absurd h h1
+  · rw [h]
+
+theorem countEq_le_length (v : List Int) (x : Int) : countEq v x ≤ v.length := by
+  unfold countEq
+  exact List.length_filter_le _ _
+
+/-- **C04 (completeness of the procedure after the header is in place)**: when the scan has left something to do and the marks
+after scan, copy and reset are one per chunk, 0 or 1, with the chunks without stored bytes valid; the server's file `B` has every
+chunk of the index present; and every response is well formed (`Honest`: the regex oracle reads the reference server's responses
+as intended) — then for ANY old file, limit and fragment size the procedure ends WITHOUT error and with EVERY chunk marked valid -/
+theorem afterHeader_complete (H : HashFn) (rx : Rx) (A : Option Bytes) (B : Bytes) (limit : Int) (frag : Nat) (o : Out)
+    (t2 : Bytes) (th : Hdr) (hrun : C13.RunFrom 0 0 th.chunks)
+    (hbound : th.lead + th.headerLen + C13.sumLen th.chunks < 2^64) (ho : o.err = none)
+    (hsc0 : (Reader.validateChecksums H t2 (Reader.openCtx th)).1 ≠ 0)
+    (hsc1 : (Reader.validateChecksums H t2 (Reader.openCtx th)).1 ≠ 1)
+    (hmarks : Marks th (resetFailed (copyFrom H A th ⟨t2, (Reader.validateChecksums H t2 (Reader.openCtx th)).2.valid⟩).valid))
+    (hBsmall : B.length < W64) (hB : AllPresent (envOf H rx th []) B)
+    (hon : ∀ n valid', Marks th valid' → Honest rx (n + 1) B.length (reqOf th limit valid').items) :
+    let out := afterHeader H rx A B limit frag none o t2 th
+    out.err = none ∧ out.allValid = true := by
+  intro out
+  have hout : out = afterHeader H rx A B limit frag none o t2 th := rfl
+  unfold afterHeader at hout
+  simp only [hsc0, hsc1, ↓reduceIte] at hout
+  generalize copyFrom H A th ⟨t2, (Reader.validateChecksums H t2 (Reader.openCtx th)).2.valid⟩ = t at hmarks hout
+  have hfuel : countEq (resetFailed t.valid) 0 < th.chunks.length + 3 := by
+    have := countEq_le_length (resetFailed t.valid) 0
+    rw [hmarks.len] at this
+    omega
+  have hl := loop_complete H rx B th limit frag hrun hbound hBsmall hB hon (th.chunks.length + 3) t.f (resetFailed t.valid) [] 0
+    hmarks hfuel
+  simp only at hl
+  generalize Update.loop H rx B th limit frag none (th.chunks.length + 3) t.f (resetFailed t.valid) [] 0 = r at hl hout
+  obtain ⟨h1, h2, h3⟩ := hl
+  rw [h1] at hout
+  simp only at hout
+  rw [hout]
+  unfold finish
+  exact ⟨ho, marks_all_valid th r.2.1 h2 h3⟩
+
+/-- **C04 (headline)**: under the hypotheses of `afterHeader_complete` and `update_yields_B` together, the procedure ends without
+error and leaves the target BYTE-IDENTICAL to the server's file `B` — or two different byte strings with the same chunk
+checksum exist -/
+theorem update_complete (H : HashFn) (rx : Rx) (A : Option Bytes) (B : Bytes) (limit : Int) (frag : Nat) (o : Out)
+    (t2 : Bytes) (th : Hdr) (hh : HdrOk H t2 th) (ho : o.err = none)
+    (hA : ∀ a ah, A = some a → Header.openFile H a = .ok ah → ah.chunkHashType = th.chunkHashType)
+    (hBlen : B.length = th.lead + th.headerLen + th.dataLen)
+    (hBhdr : ∀ i, i < th.lead + th.headerLen → B.getD i 0 = t2.getD i 0)
+    (hBok : AllPresent (envOf H rx th []) B)
+    (hsc0 : (Reader.validateChecksums H t2 (Reader.openCtx th)).1 ≠ 0)
+    (hsc1 : (Reader.validateChecksums H t2 (Reader.openCtx th)).1 ≠ 1)
+    (hmarks : Marks th (resetFailed (copyFrom H A th ⟨t2, (Reader.validateChecksums H t2 (Reader.openCtx th)).2.valid⟩).valid))
+    (hon : ∀ n valid', Marks th valid' → Honest rx (n + 1) B.length (reqOf th limit valid').items) :
+    let out := afterHeader H rx A B limit frag none o t2 th
+    out.err = none ∧ (out.file = B ∨ Collision H th.chunkHashType) := by
+  intro out
+  have hs := C13.open_sound H t2 th hh.opened hh.small
+  have hrun := hs.2.2.1
+  have hbound : th.lead + th.headerLen + C13.sumLen th.chunks < 2^64 := by
+    have := hs.2.2.2.2; rw [hs.2.2.2.1] at this; omega
+  have hBsmall : B.length < W64 := by
+    rw [hBlen]; have := hs.2.2.2.2; unfold W64; omega
+  have hc := afterHeader_complete H rx A B limit frag o t2 th hrun hbound ho hsc0 hsc1 hmarks hBsmall hBok hon
+  exact ⟨hc.1, update_yields_B H rx A B limit frag none o t2 th hh hA hBlen hBhdr hBok hc.1 hc.2⟩
 
 end Zck.C04
